@@ -415,6 +415,34 @@ impl Property for C16 {
                 }
                 _ => {}
             }
+            // the parameterised HTML5 entry points and the *_with_normalizer twins (Noop normalizer)
+            let hp = || xot::output::html5::Parameters {
+                indentation: if unescaped_gt { Some(Indentation { suppress: suppress.clone() }) } else { None },
+                cdata_section_elements: cdata.clone(),
+            };
+            if let Ok(Ok(hs)) = guarded(|| h.serialize_string(hp(), start)) {
+                let mut w = Dribble { out: vec![], max: chunk };
+                h.serialize_write(hp(), start, &mut w).map_err(|e| format!("Html5::serialize_write failed where serialize_string succeeded: {}", e))?;
+                if w.out != hs.as_bytes() {
+                    return Err(format!("Html5::serialize_write emits {:?}, serialize_string gives {:?}", String::from_utf8_lossy(&w.out), hs));
+                }
+                let hn = h.serialize_string_with_normalizer(hp(), start, NoopNormalizer).map_err(|e| format!("Html5::serialize_string_with_normalizer failed: {}", e))?;
+                if hn != hs {
+                    return Err("Html5::serialize_string_with_normalizer(Noop) differs from serialize_string".into());
+                }
+            }
+            let xn = xot
+                .serialize_xml_string_with_normalizer(Parameters { cdata_section_elements: cdata.clone(), unescaped_gt, ..Default::default() }, start, NoopNormalizer)
+                .map_err(|e| format!("serialize_xml_string_with_normalizer failed: {}", e))?;
+            if xn != plain {
+                return Err("serialize_xml_string_with_normalizer(Noop) differs from serialize_xml_string".into());
+            }
+            let mut w = Dribble { out: vec![], max: chunk };
+            xot.serialize_xml_write_with_normalizer(Parameters { cdata_section_elements: cdata.clone(), unescaped_gt, ..Default::default() }, start, &mut w, NoopNormalizer)
+                .map_err(|e| format!("serialize_xml_write_with_normalizer failed: {}", e))?;
+            if w.out != plain.as_bytes() {
+                return Err("serialize_xml_write_with_normalizer(Noop) emits other bytes than serialize_xml_string".into());
+            }
             Ok(())
         })();
         match r {
